@@ -2,6 +2,7 @@ package checks
 
 import (
 	"fmt"
+	"os"
 	"sort"
 	"strings"
 	"sync"
@@ -209,7 +210,7 @@ func c06Program(c *rt.Ctx, fsType string, treeNo int, tree []fsx.Op, progs [][]f
 		c.Rep.Case(fmt.Sprintf("%s|tree%d|switches=%d", sigBase, treeNo, min3(e.Switches, 5)), e.Switches > 0)
 		if v == sched.Deadlock {
 			c.Rep.Count("deadlocked_schedules", 1)
-			if c07OnlyReturns {
+			if c07OnlyReturns || os.Getenv("VERIF_C06_DEADLOCKS") != "" {
 				c.Disagree(sigBase+"|deadlock", fmt.Sprintf("%s: a schedule of %v ends with every unfinished goroutine waiting for a lock: %s", fsType, progText(progs), desc), replay(map[string]any{"verdict": "deadlock", "who_waits": desc}))
 			}
 			return
@@ -485,6 +486,55 @@ func c06TempsMany(c *rt.Ctx, fsType string, total int) {
 	}
 }
 
+// c06Dedicated runs the dedicated programs (calls made of several walks against entries that come and go; directory
+// moves whose locked directories form a cycle). C06 judges their results; C07 runs the very same programs for its
+// "every worker returns" verdict - a deadlock seen here and nowhere reported is how the four-directory Rename deadlock
+// went unnoticed for two rounds.
+func c06Dedicated(c *rt.Ctx, fsType string, trees [][]fsx.Op, idx *int, st *c06Stats, r interface{ IntN(int) int }) {
+	// fixed three-worker programs: calls made of several walks (MkdirAll's check for broken links, Rename's two
+	// walks) against symbolic links and directories that come, go and move meanwhile
+	if fsType == "MemFS" {
+		fixed := [][][]fsx.Op{
+			{{{K: "MkdirAll", P: "/w/a/x", Perm: 0o755}}, {{K: "OpenWriteClose", P: "/w/b", Flag: syscall.O_RDWR | syscall.O_CREAT | syscall.O_TRUNC, Perm: 0o644}, {K: "Remove", P: "/w/a"}}, {{K: "Symlink", P: "b", Q: "/w/a"}}},
+			{{{K: "MkdirAll", P: "/w/d/a", Perm: 0o755}}, {{K: "Symlink", P: "a", Q: "/w/d/a"}, {K: "Rename", P: "/w/a", Q: "/w/d/x"}}, {{K: "Rename", P: "/w/d", Q: "/w/a"}}},
+			{{{K: "MkdirAll", P: "/w/a/x", Perm: 0o755}}, {{K: "Symlink", P: "zz", Q: "/w/a"}}, {{K: "Remove", P: "/w/a"}}},
+			{{{K: "MkdirAll", P: "/w/a/x/y", Perm: 0o755}}, {{K: "Symlink", P: "d", Q: "/w/a"}, {K: "Remove", P: "/w/a"}}, {{K: "Rename", P: "/w/d", Q: "/w/e"}}},
+			{{{K: "Link", P: "/w/a", Q: "/w/d/l"}}, {{K: "Symlink", P: "b", Q: "/w/a"}, {K: "Remove", P: "/w/a"}}, {{K: "Rename", P: "/w/d", Q: "/w/e"}}},
+			// the target of the link comes and goes again between the walks of MkdirAll (thorough seed 2, round 6)
+			{{{K: "MkdirAll", P: "/w/a/x", Perm: 0o755}}, {{K: "OpenWriteClose", P: "/w/b", Flag: syscall.O_WRONLY | syscall.O_CREAT | syscall.O_EXCL, Perm: 0o644}, {K: "Remove", P: "/w/b"}}, {{K: "Symlink", P: "/w/b", Q: "/w/a"}}},
+			{{{K: "MkdirAll", P: "/w/a/x", Perm: 0o755}}, {{K: "Mkdir", P: "/w/d/c", Perm: 0o755}, {K: "Remove", P: "/w/d/c"}}, {{K: "Symlink", P: "/w/d/c", Q: "/w/a"}}},
+		}
+		for _, progs := range fixed {
+			for ti, tree := range trees {
+				*idx++
+				if *idx%c.NShards != c.Shard {
+					continue
+				}
+				c06Program(c, fsType, ti, tree, progs, c.Pick(2, 3), c.Pick(600, 4000), c.Pick(20, 60), st, r)
+			}
+		}
+	}
+	// two directory moves with disjoint pairs of locked directories, each moving a directory below the one the
+	// other moves: a cycle detached from the root if both get through (plus a third worker looking on)
+	{
+		tree := []fsx.Op{{K: "Mkdir", P: "/w", Perm: 0o755}, {K: "Mkdir", P: "/w/a", Perm: 0o755}, {K: "Mkdir", P: "/w/a/b", Perm: 0o755}, {K: "Mkdir", P: "/w/c", Perm: 0o755}, {K: "Mkdir", P: "/w/c/e", Perm: 0o755}, {K: "WriteFile", P: "/w/a/b/m", Data: "m", Perm: 0o644}}
+		for _, progs := range [][][]fsx.Op{
+			{{{K: "Rename", P: "/w/a/b", Q: "/w/c/b"}}, {{K: "Rename", P: "/w/c", Q: "/w/a/b/c"}}},
+			{{{K: "Rename", P: "/w/a/b", Q: "/w/c/b"}}, {{K: "Rename", P: "/w/c", Q: "/w/a/b/c"}}, {{K: "ReadDir", P: "/w"}, {K: "Stat", P: "/w/a/b/m"}}},
+			{{{K: "Rename", P: "/w/a", Q: "/w/c/a"}}, {{K: "Rename", P: "/w/c", Q: "/w/a/b/c"}}},
+			// four directories: each rename moves a directory below the directory the other one moves
+			{{{K: "Rename", P: "/w/a/b", Q: "/w/c/e/b"}}, {{K: "Rename", P: "/w/c/e", Q: "/w/a/b/e"}}},
+			{{{K: "Rename", P: "/w/a/b", Q: "/w/c/e/b"}}, {{K: "Rename", P: "/w/c/e", Q: "/w/a/b/e"}}, {{K: "ReadDir", P: "/w/a"}, {K: "ReadDir", P: "/w/c"}}},
+		} {
+			*idx++
+			if *idx%c.NShards != c.Shard {
+				continue
+			}
+			c06Program(c, fsType, 9, tree, progs, 3, c.Pick(3000, 12000), c.Pick(40, 120), st, r)
+		}
+	}
+}
+
 func init() {
 	register(&Check{
 		Prop:   "C06",
@@ -525,45 +575,7 @@ func init() {
 						}
 					}
 				}
-				// fixed three-worker programs: calls made of several walks (MkdirAll's check for broken links, Rename's two
-				// walks) against symbolic links and directories that come, go and move meanwhile
-				if fsType == "MemFS" {
-					fixed := [][][]fsx.Op{
-						{{{K: "MkdirAll", P: "/w/a/x", Perm: 0o755}}, {{K: "OpenWriteClose", P: "/w/b", Flag: syscall.O_RDWR | syscall.O_CREAT | syscall.O_TRUNC, Perm: 0o644}, {K: "Remove", P: "/w/a"}}, {{K: "Symlink", P: "b", Q: "/w/a"}}},
-						{{{K: "MkdirAll", P: "/w/d/a", Perm: 0o755}}, {{K: "Symlink", P: "a", Q: "/w/d/a"}, {K: "Rename", P: "/w/a", Q: "/w/d/x"}}, {{K: "Rename", P: "/w/d", Q: "/w/a"}}},
-						{{{K: "MkdirAll", P: "/w/a/x", Perm: 0o755}}, {{K: "Symlink", P: "zz", Q: "/w/a"}}, {{K: "Remove", P: "/w/a"}}},
-						{{{K: "MkdirAll", P: "/w/a/x/y", Perm: 0o755}}, {{K: "Symlink", P: "d", Q: "/w/a"}, {K: "Remove", P: "/w/a"}}, {{K: "Rename", P: "/w/d", Q: "/w/e"}}},
-						{{{K: "Link", P: "/w/a", Q: "/w/d/l"}}, {{K: "Symlink", P: "b", Q: "/w/a"}, {K: "Remove", P: "/w/a"}}, {{K: "Rename", P: "/w/d", Q: "/w/e"}}},
-						// the target of the link comes and goes again between the walks of MkdirAll (thorough seed 2, round 6)
-						{{{K: "MkdirAll", P: "/w/a/x", Perm: 0o755}}, {{K: "OpenWriteClose", P: "/w/b", Flag: syscall.O_WRONLY | syscall.O_CREAT | syscall.O_EXCL, Perm: 0o644}, {K: "Remove", P: "/w/b"}}, {{K: "Symlink", P: "/w/b", Q: "/w/a"}}},
-						{{{K: "MkdirAll", P: "/w/a/x", Perm: 0o755}}, {{K: "Mkdir", P: "/w/d/c", Perm: 0o755}, {K: "Remove", P: "/w/d/c"}}, {{K: "Symlink", P: "/w/d/c", Q: "/w/a"}}},
-					}
-					for _, progs := range fixed {
-						for ti, tree := range trees {
-							idx++
-							if idx%c.NShards != c.Shard {
-								continue
-							}
-							c06Program(c, fsType, ti, tree, progs, c.Pick(2, 3), c.Pick(600, 4000), c.Pick(20, 60), st, r)
-						}
-					}
-				}
-				// two directory moves with disjoint pairs of locked directories, each moving a directory below the one the
-				// other moves: a cycle detached from the root if both get through (plus a third worker looking on)
-				{
-					tree := []fsx.Op{{K: "Mkdir", P: "/w", Perm: 0o755}, {K: "Mkdir", P: "/w/a", Perm: 0o755}, {K: "Mkdir", P: "/w/a/b", Perm: 0o755}, {K: "Mkdir", P: "/w/c", Perm: 0o755}, {K: "WriteFile", P: "/w/a/b/m", Data: "m", Perm: 0o644}}
-					for _, progs := range [][][]fsx.Op{
-						{{{K: "Rename", P: "/w/a/b", Q: "/w/c/b"}}, {{K: "Rename", P: "/w/c", Q: "/w/a/b/c"}}},
-						{{{K: "Rename", P: "/w/a/b", Q: "/w/c/b"}}, {{K: "Rename", P: "/w/c", Q: "/w/a/b/c"}}, {{K: "ReadDir", P: "/w"}, {K: "Stat", P: "/w/a/b/m"}}},
-						{{{K: "Rename", P: "/w/a", Q: "/w/c/a"}}, {{K: "Rename", P: "/w/c", Q: "/w/a/b/c"}}},
-					} {
-						idx++
-						if idx%c.NShards != c.Shard {
-							continue
-						}
-						c06Program(c, fsType, 9, tree, progs, c.Pick(2, 3), c.Pick(600, 4000), c.Pick(20, 60), st, r)
-					}
-				}
+				c06Dedicated(c, fsType, trees, &idx, st, r)
 				// larger random programs
 				for k := 0; k < c.Pick(120, 3000); k++ {
 					idx++
